@@ -11,6 +11,8 @@ import LexVerif.Proof.DragonboxShorterA
 import LexVerif.Proof.DragonboxShorterB
 import LexVerif.Proof.DragonboxShorterC
 import LexVerif.Proof.DragonboxShorterD
+import LexVerif.Proof.GrisuCached
+import LexVerif.Proof.GrisuSpec
 /-!
 # C02 — float→decimal output round-trips exactly and is shortest (property theorems)
 
@@ -254,5 +256,50 @@ example : toDecimal .f64 0x447CF7C4F4A7C4B0 ≠ none ∧ dragonboxOk .f64 (0x447
 example : 0 < 1 ∧ (1 : Nat) < 2 ^ FTy.f64.exponentSize.toNat - 1 := by decide
 
 end Dragonbox
+
+/-! ## Grisu (`compact` builds) -/
+section Grisu
+open LexVerif.Model.Dragonbox LexVerif.Proof.DragonboxSpec LexVerif.Proof.GrisuSpec LexVerif.Proof
+open LexVerif.Gen.Grisu
+
+/-- the model of `cached_grisu_power` — which replaces the `f64` multiplication by `ONE_LOG_TEN` with its exact rational
+value — returns on EVERY admissible argument `-1140 … 1089` what the compiled crate returned (R dump): together with
+`Props.TablesWrite.grisu_cached` (row, binary exponent and the window `-60 ≤ e + e_c + 64 ≤ -32` are right) -/
+theorem grisu_cached_power_model (i : Nat) (h : i < LexVerif.Proof.Tables.Grisu.cachedRows.length) :
+    LexVerif.Model.Grisu.cachedGrisuPower (cachedLo + i) =
+      some (⟨LexVerif.Proof.Tables.Grisu.cachedRows[i].1,
+              (LexVerif.Proof.Tables.Grisu.cachedRows[i].2.1 : Int) - cachedBinExpBias⟩,
+            (LexVerif.Proof.Tables.Grisu.cachedRows[i].2.2 : Int) - cachedKBias) :=
+  GrisuCached.cachedGrisuPower_eq_dump i h
+
+/-- FULL STATEMENT (not proved in general): for every finite non-zero float the model's `grisu` yields 1…17 (f64) /
+1…9 (f32) decimal digit characters without a leading zero whose value `digits·10^k` rounds back to the float -/
+def grisu_roundtrip : Prop :=
+  ∀ (t : FTy) (bits : Nat), 0 < bits → bits < (fmtOf t).infBits → grisuOk t bits = true
+
+/-- PROVED PART: kernel-evaluated instances — all 254 powers of two of binary32, 128 powers of two of binary64 spread
+over the whole exponent range, the extreme subnormal / normal patterns and binade-boundary neighbours of both types.
+(Everything else is covered by the `gr` component correspondence and the exact re-parse of every output.) -/
+theorem grisu_roundtrip_partial :
+    (∀ e, 0 < e → e < 255 → grisuOk .f32 (e * 2 ^ 23) = true)
+    ∧ (∀ i, i < 128 → grisuOk .f64 ((16 * i + 1) * 2 ^ 52) = true)
+    ∧ grisuOk .f64 1 = true ∧ grisuOk .f64 0x7FEFFFFFFFFFFFFF = true
+    ∧ grisuOk .f32 1 = true ∧ grisuOk .f32 0x7F7FFFFF = true := by
+  refine ⟨?_, ?_, ?_, ?_, ?_, ?_⟩
+  · intro e h0 he
+    exact List.all_eq_true.mp grisu_pow2_f32 _ (mem_expChunk (t := .f32) (Nat.zero_le _) he h0)
+  · intro i hi
+    have h := List.all_eq_true.mp grisu_samples_f64 ((16 * i + 1) * 2 ^ 52)
+    apply h
+    apply List.mem_append_left
+    exact List.mem_map.mpr ⟨i, List.mem_range.mpr hi, rfl⟩
+  · exact List.all_eq_true.mp grisu_samples_f64 1 (by simp)
+  · exact List.all_eq_true.mp grisu_samples_f64 0x7FEFFFFFFFFFFFFF (by simp)
+  · exact List.all_eq_true.mp grisu_samples_f32 1 (by simp)
+  · exact List.all_eq_true.mp grisu_samples_f32 0x7F7FFFFF (by simp)
+
+example : LexVerif.Model.Grisu.grisu .f64 0x3FF8000000000000 = some ([49, 53], -1) := by decide +kernel
+
+end Grisu
 
 end LexVerif.Props.C02
